@@ -119,7 +119,14 @@ func pickErrStatus(r *vc.Rand) int {
 
 func (x *g) genSchemes() {
 	kinds := []string{"basic", "apikey", "jwt", "oauth2", "apikey"}
+	if x.o.Runtime {
+		// two schemes of one kind in a service is a listed C01 finding (duplicate Auther method)
+		kinds = kinds[:4]
+	}
 	n := x.r.Range(1, 3)
+	if n > len(kinds) {
+		n = len(kinds)
+	}
 	perm := x.r.Perm(len(kinds))
 	seen := map[string]bool{}
 	for i := 0; i < n; i++ {
@@ -269,7 +276,7 @@ func (x *g) genAlias() *spec.UserType {
 		}
 	}
 	ut := &spec.UserType{Name: x.typeName(x.r.Pick("Code", "Label", "Ident", "Score") + "Alias"), Kind: "alias", Def: def}
-	if x.chance(2, 3) {
+	if x.chance(2, 3) && def.Kind != spec.Ref {
 		rt, _ := x.s.Resolve(def)
 		if rt == nil {
 			rt = def
